@@ -11,6 +11,8 @@
 #include <rational_interval.h>
 #include <dyadic_interval.h>
 #include "interval/arithmetic.h"
+#include <value.h>
+#include <interval.h>
 
 /* an abstract interval description */
 typedef struct { mpq_t a, b; int ao, bo, pt; } ival;
@@ -194,6 +196,80 @@ static void random_case(void) {
   ival_clear(&X); ival_clear(&Y);
 }
 
+
+/* ---- general value intervals (lp_interval_t): integer / dyadic / rational / infinite end points ---- */
+typedef struct { mpq_t a, b; int ao, bo, pt, ainf, binf, kind_a, kind_b; } vival;
+static void vival_init(vival* I) { mpq_init(I->a); mpq_init(I->b); I->ao = I->bo = 0; I->pt = 1; I->ainf = I->binf = 0; I->kind_a = I->kind_b = 0; }
+static void vival_clear(vival* I) { mpq_clear(I->a); mpq_clear(I->b); }
+/* value of kind 0 integer (if integral) / 1 dyadic (if dyadic) / 2 rational, representing q */
+static void value_from_q(lp_value_t* v, const mpq_t q, int kind) {
+  if (kind == 0 && mpz_cmp_ui(mpq_denref(q), 1) == 0) { lp_value_construct(v, LP_VALUE_INTEGER, mpq_numref(q)); return; }
+  if (kind <= 1 && mpz_popcount(mpq_denref(q)) == 1) { lp_dyadic_rational_t d; dy_from_q(&d, q); lp_value_construct(v, LP_VALUE_DYADIC_RATIONAL, &d); lp_dyadic_rational_destruct(&d); return; }
+  lp_value_construct(v, LP_VALUE_RATIONAL, q);
+}
+static void vi_from(lp_interval_t* R, const vival* I) {
+  lp_value_t a, b;
+  if (I->ainf) lp_value_construct(&a, LP_VALUE_MINUS_INFINITY, 0); else value_from_q(&a, I->a, I->kind_a);
+  if (I->pt) { lp_interval_construct_point(R, &a); lp_value_destruct(&a); return; }
+  if (I->binf) lp_value_construct(&b, LP_VALUE_PLUS_INFINITY, 0); else value_from_q(&b, I->b, I->kind_b);
+  lp_interval_construct(R, &a, I->ao, &b, I->bo);
+  lp_value_destruct(&a); lp_value_destruct(&b);
+}
+static void sb_val(const lp_value_t* v) {
+  if (v->type == LP_VALUE_MINUS_INFINITY) { sb_str("-inf"); return; }
+  if (v->type == LP_VALUE_PLUS_INFINITY) { sb_str("+inf"); return; }
+  if (v->type == LP_VALUE_NONE) { sb_str("none"); return; }
+  if (lp_value_is_rational(v)) { lp_rational_t q; lp_rational_construct(&q); lp_value_get_rational(v, &q); sb_mpq(&q); lp_rational_destruct(&q); return; }
+  sb_str("alg");
+}
+static void sb_vi(const lp_interval_t* I) {
+  if (I->is_point) { sb_str("["); sb_val(&I->a); sb_str("]"); return; }
+  sb_str(I->a_open ? "(" : "["); sb_val(&I->a); sb_str(","); sb_val(&I->b); sb_str(I->b_open ? ")" : "]");
+}
+static void sb_vival(const vival* I) {
+  if (I->pt) { sb_str("["); sb_mpq(I->a); sb_str("]"); return; }
+  sb_str(I->ao ? "(" : "["); if (I->ainf) sb_str("-inf"); else sb_mpq(I->a); sb_str(",");
+  if (I->binf) sb_str("+inf"); else sb_mpq(I->b); sb_str(I->bo ? ")" : "]");
+}
+static void gen_vival(vival* I) {
+  I->kind_a = (int)rnd(3); I->kind_b = (int)rnd(3);
+  unsigned k = rnd(100);
+  mpq_set_si(I->a, rnd_in(-3, 3), 1); if (chance(30)) mpq_div_2exp(I->a, I->a, 1); if (chance(10)) { mpq_set_si(I->a, rnd_in(-7, 7), 3); mpq_canonicalize(I->a); }
+  if (k < 20) { I->pt = 1; I->ao = I->bo = 0; I->ainf = I->binf = 0; mpq_set(I->b, I->a); return; }
+  I->pt = 0;
+  mpq_set_si(I->b, rnd_in(-3, 3), 1); if (chance(30)) mpq_div_2exp(I->b, I->b, 1);
+  if (chance(20)) mpq_neg(I->b, I->a);
+  I->ainf = chance(12); I->binf = chance(12);
+  if (!I->ainf && !I->binf) { int c = mpq_cmp(I->a, I->b); if (c == 0) { mpq_t one; mpq_init(one); mpq_set_ui(one, 1, 1); mpq_add(I->b, I->b, one); mpq_clear(one); } else if (c > 0) mpq_swap(I->a, I->b); }
+  I->ao = I->ainf ? 1 : (int)rnd(2); I->bo = I->binf ? 1 : (int)rnd(2);
+}
+static void vi_case(void) {
+  vival X, Y; vival_init(&X); vival_init(&Y); gen_vival(&X); gen_vival(&Y);
+  lp_interval_t A, B, F, P;
+  vi_from(&A, &X); vi_from(&B, &Y);
+  lp_interval_construct_zero(&F);
+  { lp_value_t l, u; lp_integer_t z; lp_integer_construct_from_int(lp_Z, &z, -9); lp_value_construct(&l, LP_VALUE_INTEGER, &z); lp_integer_assign_int(lp_Z, &z, 9);
+    lp_value_construct(&u, LP_VALUE_INTEGER, &z); lp_interval_construct(&P, &l, 1, &u, 0); lp_value_destruct(&l); lp_value_destruct(&u); lp_integer_destruct(&z); }
+  int dk = (int)rnd(4);
+  lp_interval_t* out = dk == 0 ? &F : dk == 1 ? &P : dk == 2 ? &A : &B;
+  char dest[2] = { "fpab"[dk], 0 };
+  unsigned op = rnd(5);
+  if (op == 0 || op == 1) {
+    sb_begin("vi", op == 0 ? "add" : "mul"); sb_sp(); sb_str(dest); sb_sp(); sb_vival(&X); sb_sp(); sb_vival(&Y); sb_arrow();
+    if (op == 0) lp_interval_add(out, &A, &B); else lp_interval_mul(out, &A, &B);
+    sb_sp(); sb_vi(out); sb_emit();
+  } else if (op == 2 || op == 3) {
+    if (dk == 3) { out = &A; dest[0] = 'a'; }
+    unsigned n = rnd(6);
+    sb_begin("vi", "pow"); sb_sp(); sb_str(dest); sb_sp(); sb_vival(&X); sb_sp(); sb_ulong(n); sb_arrow();
+    lp_interval_pow(out, &A, n); sb_sp(); sb_vi(out); sb_emit();
+  } else {
+    sb_begin("vi", "sgn"); sb_str(" -"); sb_sp(); sb_vival(&X); sb_arrow(); sb_sp(); sb_long(lp_interval_sgn(&A)); sb_emit();
+  }
+  lp_interval_destruct(&A); lp_interval_destruct(&B); lp_interval_destruct(&F); lp_interval_destruct(&P);
+  vival_clear(&X); vival_clear(&Y);
+}
+
 int main(int argc, char** argv) {
   uint64_t seed = argc > 1 ? strtoull(argv[1], 0, 10) : 1;
   long n = argc > 2 ? atol(argv[2]) : 1000;
@@ -205,7 +281,7 @@ int main(int argc, char** argv) {
   for (long i = 0; i < total; ++i) {
     if ((only >= 0 && i != only) || i < start) continue;
     lpv_begin_case(seed, i);
-    if (i < EXH_TOTAL) exhaustive_case(i); else random_case();
+    if (i < EXH_TOTAL) exhaustive_case(i); else if (chance(40)) vi_case(); else random_case();
   }
   for (int k = 0; k < NSMALL; ++k) ival_clear(&small[k]);
   free(sb_buf);
